@@ -76,6 +76,14 @@ def rule_tokens(ctx: Ctx) -> None:  # noqa: C901
             "indices are joined with ', ' and split on ',' (+strip)", f"the printer joins indices with {sorted(joins)} but the parser splits on {sorted(splits)}: from_string(str(m)) fails or differs", "index separator not recognised", key="comma")
     stripped = any(isinstance(c, ast.Call) and isinstance(c.func, ast.Attribute) and c.func.attr == "strip" for n in ps for c in ast.walk(n))
     ctx.tri("1-tokens", frm, frm.node, stripped, False, "split parts are stripped (the printer emits ', ')", "", "no .strip() in the parser", key="strip")
+    # whitespace is removed AROUND a slot (strip), never inside it: deleting all blanks glues `a[i j]` (a forgotten comma) together
+    # into the identifier `ij` - a non-identifier slot is accepted at the wrong rank instead of rejected
+    glue = [c for n in ps for c in ast.walk(n) if isinstance(c, ast.Call) and ((isinstance(c.func, ast.Attribute) and c.func.attr == "replace" and len(c.args) == 2 and isinstance(c.args[0], ast.Constant)
+            and isinstance(c.args[0].value, str) and c.args[0].value.strip() == "" and c.args[0].value != "" and isinstance(c.args[1], ast.Constant) and c.args[1].value == "")
+            or (dotted(c.func) in ("re.sub",) and c.args and isinstance(c.args[0], ast.Constant) and str(c.args[0].value) in (r"\s", r"\s+", " ", " +") and len(c.args) > 1 and isinstance(c.args[1], ast.Constant) and c.args[1].value == "")
+            or (isinstance(c.func, ast.Attribute) and c.func.attr == "join" and isinstance(c.func.value, ast.Constant) and c.func.value.value == "" and any(isinstance(x, ast.Call) and isinstance(x.func, ast.Attribute) and x.func.attr == "split" and not x.args for x in ast.walk(c))))]
+    ctx.add("1-tokens", frm, glue[0] if glue else frm.node, not glue, "the parser never deletes blanks inside a slot" if not glue else
+            f"`{norm(glue[0])[:50]}` deletes every blank of the index list before it is split: `a[i j]` (a dropped comma) becomes the single identifier `ij` and parses at the wrong rank instead of being rejected", key="no-glue")
     for tok, what in ((":", "a reduced axis (None)"), ("...", "no inputs"), ("[", "the index list")):
         in_print = any(tok == c or (tok in c and tok in ("[",)) for c in _consts(pr_a + pr_m))
         in_parse = any(tok == c or (tok == "[" and "\\[" in c) for c in _consts(ps))
